@@ -304,8 +304,10 @@ fn judge_attr(src: &Tlv, got: &Tlv, four: bool, read: Read) -> Result<(), String
         Class::Invalid => {
             // recognised type, malformed value: the type's optional/transitive bits, marked partial
             // (the library could not interpret it), value octets untouched
-            let want = ref_flags(*code).unwrap() | 0x20 | ext;
-            if *gfl != want { return Err(format!("malformed attribute {}: flags {:02x}, expected {:02x}", code, gfl, want)); }
+            // (the property says "the canonical flags for recognised types"; the code also sets PARTIAL on a malformed one:
+            // with or without that bit the clause holds, so the bit is not demanded - the model agreement still pins it)
+            let want = ref_flags(*code).unwrap() | ext;
+            if *gfl & !0x20 != want { return Err(format!("malformed attribute {}: flags {:02x}, expected {:02x} (with or without the partial bit)", code, gfl, want)); }
             if gval != sval { return Err(format!("malformed attribute {}: value of {} octets changed", code, sval.len())); }
         }
         Class::Unknown => {
